@@ -358,6 +358,9 @@ META = (META[0] + ' REL evaluates optional and variant operators over a fourth e
 META = (META[0] + ' REFQMOVE (an rvalue-qualified accessor hands the member it returns or indexes on through etl::move).', META[1])
 
 
+META = (META[0] + ' VISITCAT (visit hands each alternative to the visitor through the rvalue accessor of its by-value proxy, the only one that keeps the variant argument value category).', META[1])
+
+
 def run(chk, tier):
     db = D.load("checks")
     from ..rules import params as _PR
@@ -371,6 +374,9 @@ def run(chk, tier):
     if _ITY.typed_functor_area(chk, db, ["_optional/", "_variant/", "_expected/"]) < 10:      # TYPEDFUN
         chk.analysis_broken("TYPEDFUN: fewer than 10 two-type-parameter templates in optional / variant / expected (floor 10)")
     _ITY.typed_functor_control(chk, D)
+    from ..rules import extra10 as _X10
+    if _X10.visit_category_area(chk, db, ['_variant/']) < 1:      # VISITCAT
+        chk.unknown_instance('VISITCAT', 'etl::visit', 'no generic lambda that hands proxy values to the forwarded visitor found')
     constr_rule(chk, db)
     from ..rules import extra8 as _X8r
     if _X8r.refq_move_area(chk, db, ['_variant/', '_optional/', '_expected/']) < 6:      # REFQMOVE
